@@ -31,6 +31,7 @@ type vf10OSSLConfig struct {
 	Group   uint16
 	GName   string
 	CertKey string
+	GList   []uint16 // set for a preference list of several groups (Group is 0 then): the selected group is OpenSSL's choice
 }
 
 func (c vf10OSSLConfig) String() string {
@@ -125,6 +126,25 @@ func vf10OSSLExpect(o *vfOffer, c vf10OSSLConfig) (mustWork bool, why string) {
 	if !vfContains16(o.Suites, c.Suite) {
 		return false, "suite-not-offered"
 	}
+	if c.Ver == VersionTLS13 && c.GList != nil {
+		// whichever group OpenSSL picks (directly or through a HelloRetryRequest) is one the client listed; require a
+		// share for one of them so that a choice without HelloRetryRequest exists as well
+		shared := false
+		for _, g := range c.GList {
+			if vfContains16(o.Shares, g) && vfContains16(o.Groups, g) {
+				shared = true
+			}
+		}
+		if !shared {
+			return false, "no-share-for-a-listed-group"
+		}
+		for _, k := range vfCertKeysFor(o, c.Ver, "") {
+			if k == c.CertKey {
+				return true, ""
+			}
+		}
+		return false, "cert-type-not-offered"
+	}
 	if c.Ver == VersionTLS13 {
 		if !vfContains16(o.Groups, c.Group) {
 			return false, "group-not-offered"
@@ -174,6 +194,20 @@ func TestVerifC10OpenSSL(t *testing.T) {
 				cfgs = append(cfgs, vf10OSSLConfig{Ver: VersionTLS13, Suite: s.ID, OName: s.Name, Group: g.ID, GName: g.Name, CertKey: ck})
 			}
 		}
+	}
+	// preference lists of several classical groups: OpenSSL then reports its supported_groups in EncryptedExtensions
+	// whenever the negotiated group is not its first preference (RFC 8446 4.2.7)
+	lists := []struct {
+		Name string
+		IDs  []uint16
+	}{{"P-521:P-384:X25519:P-256", []uint16{0x0019, 0x0018, 0x001d, 0x0017}}, {"P-384:P-256:X25519", []uint16{0x0018, 0x0017, 0x001d}},
+		{"P-256:X25519", []uint16{0x0017, 0x001d}}, {"X25519:P-256:P-384", []uint16{0x001d, 0x0017, 0x0018}}}
+	for li, l := range lists {
+		if !vfThorough() && li >= 2 {
+			continue
+		}
+		s := vf10OSSL13[li%len(vf10OSSL13)]
+		cfgs = append(cfgs, vf10OSSLConfig{Ver: VersionTLS13, Suite: s.ID, OName: s.Name, GName: l.Name, GList: l.IDs, CertKey: []string{"ecdsa", "rsa"}[li%2]})
 	}
 	for si, s := range vf10OSSL12 {
 		for gi, g := range vf10OSSLGroups[:4] {
@@ -268,7 +302,7 @@ func TestVerifC10OpenSSL(t *testing.T) {
 					st.Violation(t, "%s: echo %q, want %q", desc, line, rev)
 				}
 				st.Class(fmt.Sprintf("openssl-ok ver=%04x", c.Ver))
-				st.NonTrivial(fmt.Sprintf("ossl|%s|%04x|%04x|%04x|%s", src.Kind+":"+src.Name, c.Ver, c.Suite, c.Group, c.CertKey))
+				st.NonTrivial(fmt.Sprintf("ossl|%s|%04x|%04x|%s|%s", src.Kind+":"+src.Name, c.Ver, c.Suite, c.GName, c.CertKey))
 				st.Sample(map[string]any{"client": src.String(), "server": c.String()})
 			}
 		}()
